@@ -211,17 +211,52 @@ func (e *env) apply(op Op) error {
 // fault injection: the k-th Put/Delete inside an Update fails
 type faultStore struct {
 	storage.Interface
-	failAt int // -1 = never
-	writes int // writes seen in the last Update
+	failAt       int // -1 = never
+	writes       int // writes seen in the last Update
+	commitFailed bool
 }
 
 var errInjected = errors.New("injected write failure")
 
 func (f *faultStore) Update(fn func(storage.Tx) error) error {
 	f.writes = 0
+	// through storage.DoUpdate with a transaction whose Commit can be made to fail: failAt == number of writes
+	// of the transaction places the fault at the commit itself
+	if op, ok := f.Interface.(storage.TxOperator); ok {
+		return storage.DoUpdate(faultOp{op, f}, func(tx storage.Tx) error {
+			return fn(&faultTx{Tx: tx, f: f})
+		})
+	}
 	return f.Interface.Update(func(tx storage.Tx) error {
 		return fn(&faultTx{Tx: tx, f: f})
 	})
+}
+
+type faultOp struct {
+	storage.TxOperator
+	f *faultStore
+}
+
+func (o faultOp) BeginTx() (storage.Tx, error) {
+	tx, err := o.TxOperator.BeginTx()
+	if err != nil {
+		return tx, err
+	}
+	return &commitTx{Tx: tx, f: o.f}, nil
+}
+
+type commitTx struct {
+	storage.Tx
+	f *faultStore
+}
+
+func (t *commitTx) Commit() error {
+	if t.f.failAt >= 0 && t.f.writes == t.f.failAt {
+		t.f.commitFailed = true
+		t.Tx.Rollback()
+		return errInjected
+	}
+	return t.Tx.Commit()
 }
 
 type faultTx struct {
@@ -397,12 +432,13 @@ func step(hist []Op, failAt int, deep bool) (*problem, model, int) {
 		return &problem{"dump", fmt.Sprintf("raw contents differ from model before %v: %s", op, d)}, nil, 0
 	}
 	e.ft.failAt = failAt
+	e.ft.commitFailed = false
 	err = e.apply(op)
 	writes := e.ft.writes
 	e.ft.failAt = -1
 	if failAt >= 0 {
-		if failAt >= writes {
-			return nil, nil, writes // no such write
+		if failAt > writes || (failAt == writes && !e.ft.commitFailed) {
+			return nil, nil, writes // no such write / no commit happened
 		}
 		if err == nil {
 			return &problem{"fault-swallowed", fmt.Sprintf("%v succeeded although its write #%d failed (history %v)", op, failAt, hist)}, nil, writes
@@ -517,7 +553,7 @@ func TestCheck(t *testing.T) {
 				if op.Kind == "delete" || op.Kind == "replace" || op.Kind == "put" {
 					r.AddDistinct("nontrivial", 1)
 				}
-				for f := 0; f < writes; f++ {
+				for f := 0; f <= writes; f++ { // f == writes: the commit fails
 					pf, _, _ := step(hist, f, false)
 					r.Add("evaluations", 1)
 					r.Add("fault_placements", 1)
